@@ -121,9 +121,17 @@ def run_group(tier, seed):
     picked = pick_pool(seed)
     texts = [render(c["prog"]) for c in picked]
     pool = observe_pool(texts)
+    # pool contracts that check a field of "the transaction at my index + off"
+    relc = []
+    for i, c in enumerate(picked, 1):
+        ref = c["desc"].get("ref", {})
+        if c["fam"].startswith("f3") and ref.get("kind") in ("relp", "relps", "relm", "relms"):
+            relc.append((i, ref["i"] if ref["kind"] in ("relp", "relps") else -ref["i"]))
     gcfg = ("INIT Init\nNEXT Next\nINVARIANT Emit\nCHECK_DEADLOCK FALSE\nCONSTANTS\n  Seed = %d\n  NCfg = %d\n  NPool = %d\n"
-            % (seed, SIZES[tier], len(texts)))
-    res = run_tlc("GroupGen", gcfg, workers=3)
+            "  RelCheckers <- RelC\n" % (seed, SIZES[tier], len(texts)))
+    res = run_tlc("GroupGenMC", gcfg, workers=3, extra_modules={
+        "GroupGenMC": "---- MODULE GroupGenMC ----\nEXTENDS GroupGen\nRelC == << %s >>\n====\n"
+                      % ", ".join("[c |-> %d, off |-> %d]" % rc for rc in relc)})
     require_ok(res, "GroupGen")
     cfgs = sorted(marker_lines(res["stdout"], "G"), key=lambda c: c["k"])
     os.makedirs(os.path.join(fw.OUT, "work"), exist_ok=True)
@@ -143,7 +151,8 @@ def run_group(tier, seed):
     tot = {"states": sum(o["distinct"] for o in outs) + res["distinct"], "transitions": sum(o["states"] for o in outs),
            "configs": len(judged), "multi": len([s for s in stats if s["n"] > 1]),
            "with_vulnerable": len([s for s in stats if s["nv"] > 0]),
-           "with_cleared_by_other": 0}
+           "with_cleared_by_other": sum(s["nc"] for s in stats),
+           "targets_with_two_declarers": sum(s["n2"] for s in stats), "rel_checkers": relc}
     return ws, {str(j["pid"]): j for j in judged}, tot, texts
 
 
@@ -169,11 +178,14 @@ def collect(prop, tier, seed):
         w["size"] = len(c["txs"])
         w["pipe"] = "group"
         mine.append(w)
-    if tot["multi"] == 0 or tot["with_vulnerable"] == 0:
-        raise fw.Machinery("vacuous: no multi-transaction configuration / no vulnerable verdict")
+    if tot["multi"] == 0 or tot["with_vulnerable"] == 0 or tot["with_cleared_by_other"] == 0 or tot["targets_with_two_declarers"] == 0:
+        raise fw.Machinery("vacuous: no multi-transaction configuration / no vulnerable verdict / nothing cleared by another "
+                           "member / no target declared by two members: %s" % tot)
     cov = {"states": tot["states"], "transitions": tot["transitions"], "traces_validated_against_impl": tot["configs"],
            "evaluations": tot["configs"] * len(DETS), "distinct_nontrivial": tot["multi"],
            "configurations_with_a_vulnerable_transaction": tot["with_vulnerable"],
+           "verdicts_cleared_by_another_member_only": tot["with_cleared_by_other"],
+           "targets_declared_by_two_members": tot["targets_with_two_declarers"],
            "rule": "GroupCheck.tla: configurations of GroupGen.tla (1-3 transactions over a pool of 12 contracts that check "
                    "own fields, absolute indices 0/1, offsets +1/-1, or nothing; types txn/pay/axfer/appl; absolute indices; "
                    "relative offsets) x 8 detectors; non-trivial = configurations with more than one transaction",
